@@ -4837,7 +4837,7 @@ class Qube(object):
             masks.append(scalar._mask_)
 
             new_units = new_units or scalar._units_
-            Units.require_match(new_units, scalar._units_)
+            Units.require_compatible(new_units, scalar._units_)
 
             if new_denom is None:
                 new_denom = scalar._denom_
